@@ -6,7 +6,8 @@ before/after children, skip, deferred choice, mutex, suspend gates, jump loops; 
 Oracle at quiescence (queue empty after fast-forwarding every delay): workflow status is final, or
 something is explicitly waiting (stage SUSPENDED/PAUSED, workflow PAUSED/BUFFERED).  SUCCEEDED =>
 every top-level stage continuable; a TERMINAL top-level stage => workflow final and failed; final
-workflow => no stage/task RUNNING; DLQ empty.  Bounded liveness: the harness delivers until nothing
+workflow => no stage/task RUNNING.  (A dead-lettered message beside a final workflow is counted, not judged:
+the property speaks about workflows, and a stranded one is reported as stuck.)  Bounded liveness: the harness delivers until nothing
 is deliverable (fairness rule of DESIGN 2.5).
 """
 
@@ -56,15 +57,15 @@ def quiescence_clauses(run: Run) -> list[tuple[str, str]]:
             out.append(("finished-with-running-stage", f"workflow {ws} but stages still RUNNING: {running}"))
         elif rt:
             out.append(("finished-with-running-task", f"workflow {ws} but tasks RUNNING: {rt}"))
-    if run.w.dlq_size():
-        out.append(("dead-letter", f"{run.w.dlq_size()} message(s) in the DLQ"))
+    # A dead-lettered message is not itself a violation of C05 (the statement is about workflows being final or
+    # explicitly waiting); when it strands a workflow the "stuck" clause above reports it.  It is counted (judge()).
     return out
 
 
 def interesting(spec: dict[str, Any]) -> bool:
     f = set(features(spec))
     kind = oracles.classify(spec)
-    return kind in ("racy-fail", "early-join", "choice") or bool(f & {"before-child", "after-child", "jump", "suspend", "mutex"})
+    return kind in ("racy-fail", "early-join", "choice") or bool(f & {"before-child", "after-child", "onfail-child", "jump", "suspend", "mutex"})
 
 
 def judge(c: Campaign, spec: dict[str, Any], run: Run, desc: Any, extra=()) -> None:
@@ -74,6 +75,8 @@ def judge(c: Campaign, spec: dict[str, Any], run: Run, desc: Any, extra=()) -> N
     for clause, detail in viol:
         c.violation(clause, case, detail, sig={"features": features(spec)})
     nontrivial = interesting(spec) and bool(run.schedule.out_of_order or run.schedule.redelivered)
+    if run.w.dlq_size():
+        c.count("dead-lettered-message-with-final-or-waiting-workflow" if not any(cl.startswith("stuck") for cl, _d in viol) else "dead-lettered-message-and-stuck")
     c.case(("c05", spec, desc), nontrivial, [f"kind:{oracles.classify(spec)}", f"final:{wf.status.name}"]
            + [f"feat:{f}" for f in features(spec)] + list(extra),
            sample={"spec": spec["name"], "schedule": desc, "workflow": wf.status.name,
@@ -101,7 +104,21 @@ def synthetic_spec(draw) -> dict[str, Any]:
     for i in range(1, n):
         req = [f"s{draw(st.integers(0, i - 1))}"]
         s = stage(f"s{i}", req, [ok()] * draw(st.integers(1, 2)))
-        kind = draw(st.sampled_from(["before", "after", "both", "mutex", "choice", "fail", "plain"]))
+        kind = draw(st.sampled_from(["before", "after", "both", "mutex", "choice", "fail", "plain", "syn", "syn", "syn"]))
+        if kind == "syn":
+            # scripted children: parallel or sequential, some failing, on-failure children, a parent task that may fail,
+            # continue-on-failure on the parent, children declared with the workflow instead of by the builder
+            beh = st.sampled_from(["ok", "ok", "ok", "fail"])
+            syn = {"before": draw(st.lists(beh, max_size=2)), "after": draw(st.lists(beh, max_size=2)),
+                   "parallel": draw(st.booleans()), "pre": draw(st.integers(0, 3)) == 0}
+            if not syn["pre"]:
+                syn["onfail"] = draw(st.lists(beh, max_size=2))
+            if not (syn["before"] or syn["after"] or syn.get("onfail")):
+                syn["before"] = ["ok"]
+            s["syn"] = syn
+            if draw(st.integers(0, 2)) == 0:
+                s["tasks"] = [{"b": "fail"}]
+            s["cof"] = draw(st.booleans())
         if kind in ("before", "both"):
             s["before"] = 1
         if kind in ("after", "both"):
@@ -152,7 +169,8 @@ def run(c: Campaign, jobs: int) -> None:
         "fairness rule of DESIGN 2.5 for self re-queuing wait messages; STABILIZE_MAX_STAGE_WAIT_RETRIES=24",
         "single worker thread; SQLite backend only",
     ]
-    for cls in ("kind:racy-fail", "kind:early-join", "feat:before-child", "feat:after-child", "feat:jump", "feat:suspend", "inj:dup-startstage"):
+    for cls in ("kind:racy-fail", "kind:early-join", "feat:before-child", "feat:after-child", "feat:onfail-child", "feat:failing-child",
+                "feat:predeclared-child", "feat:parallel-children", "feat:jump", "feat:suspend", "inj:dup-startstage"):
         if c.classes.get(cls, 0) == 0:
             c.harness_error(f"generator starvation: class {cls} never produced")
 
